@@ -166,7 +166,7 @@ func randRecs(r *rand.Rand, format string) []Rec {
 // bigRecs: a few hundred stacks over long frame names: binary bodies of 5-20 KiB, i.e. several fills of the decoders'
 // 4 KiB bufio buffer
 func bigRecs(r *rand.Rand) []Rec {
-	n := lib.Range(r, 250, 600)
+	n := lib.Range(r, 110, 260)
 	seen := map[string]bool{}
 	var out []Rec
 	for len(out) < n {
@@ -184,15 +184,16 @@ func bigRecs(r *rand.Rand) []Rec {
 func genBigCase(r *rand.Rand) Input {
 	c := newCtx(r)
 	var in Input
-	for _, f := range []string{lib.Pick(r, []string{"tree", "trie"}), lib.Pick(r, []string{"tree", "trie"})} {
-		s := Step{Name: Bs(c.names[0]), From: abs(c.base), Until: abs(c.base + 10), Format: sptr(f), Single: true, Mut: "bigbody"}
-		s.Recs, s.HasRecs = bigRecs(r), true
-		s.Body = renderBody(f, s.Recs)
-		in.Steps = append(in.Steps, s)
-		if lib.Chance(r, 0.5) {
-			in.Steps = append(in.Steps, genBad(r, c))
-		}
+	if lib.Chance(r, 0.5) { // something small in the same series and slot first
+		first := genValid(r, c)
+		first.Name, first.From, first.Until, first.Single = Bs(c.names[0]), abs(c.base), abs(c.base+10), true
+		in.Steps = append(in.Steps, first)
 	}
+	f := lib.Pick(r, []string{"tree", "trie"})
+	s := Step{Name: Bs(c.names[0]), From: abs(c.base), Until: abs(c.base + 10), Format: sptr(f), Single: true, Mut: "bigbody"}
+	s.Recs, s.HasRecs = bigRecs(r), true
+	s.Body = renderBody(f, s.Recs)
+	in.Steps = append(in.Steps, s)
 	return in
 }
 
@@ -443,7 +444,7 @@ func genRender(r *rand.Rand, c *caseCtx) Step {
 }
 
 func gen(r *rand.Rand, idx int, tier string) Input {
-	if idx%40 == 7 {
+	if idx%50 == 7 {
 		return genBigCase(r)
 	}
 	c := newCtx(r)
@@ -619,11 +620,16 @@ func coqBody(b []byte) string {
 	var parts []string
 	i := 0
 	lit := []byte{}
-	flush := func() {
-		if len(lit) > 0 {
-			parts = append(parts, lib.Bytes(lit))
-			lit = []byte{}
+	flush := func() { // long literals are cut into pieces: coqc's parser recurses on list literals
+		for len(lit) > 0 {
+			n := len(lit)
+			if n > 1500 {
+				n = 1500
+			}
+			parts = append(parts, lib.Bytes(lit[:n]))
+			lit = lit[n:]
 		}
+		lit = []byte{}
 	}
 	for i < len(b) {
 		j := i
